@@ -839,7 +839,7 @@ void sweep(const char *xname, bool single = false) {
 }
 
 template <class T>
-void allFor() {
+void famCopy() {
   // copies: every source kind
   sweep<ACopyN, T, PtrSrc<T>, TWO>("ptr");
   sweep<ACopyN, T, RaSrc<T>, TWO>("ra");
@@ -855,7 +855,9 @@ void allFor() {
   sweep<ACopy, T, MvSrc<T>, TWO>("mvptr");
   sweep<ACopy, T, ListSrc<T>, TWO>("list");
   sweep<ACopy, T, FListSrc<T>, TWO>("flist");
-  // moves
+}
+template <class T>
+void famMove() {
   sweep<AMoveN, T, PtrSrc<T>, TWO>("ptr");
   sweep<AMoveN, T, RaSrc<T>, TWO>("ra");
   sweep<AMoveN, T, BidSrc<T>, TWO>("bidi");
@@ -870,6 +872,9 @@ void allFor() {
   sweep<AMove, T, MvSrc<T>, TWO>("mvptr");
   sweep<AMove, T, ListSrc<T>, TWO>("list");
   sweep<AMove, T, FListSrc<T>, TWO>("flist");
+}
+template <class T>
+void famReloc() {
   // relocations: the sources are destroyed by the algorithm, so they live in a raw buffer (no owning container);
   // move_iterator is not a valid source (destroy_n would take the address of an rvalue)
   sweep<ARelocN, T, PtrSrc<T>, TWO>("ptr");
@@ -882,6 +887,9 @@ void allFor() {
   sweep<AReloc, T, FwdSrc<T>, TWO>("fwd");
   sweep<ARelocAt, T, PtrSrc<T>, TWO>("ptr", true);
   sweep<AConstructAt, T, PtrSrc<T>, TWO>("ptr", true);
+}
+template <class T>
+void famInPlace() {
   // constructions in place
   sweep<AValueN, T, MkPtr<T>, CTOR>("ptr");
   sweep<AValueN, T, MkRa<T>, CTOR>("ra");
@@ -911,14 +919,51 @@ void allFor() {
   sweep<ADestroyAt, T, MkPtr<T>, DTOR>("ptr", true);
 }
 
+// GROUP = 4 * element type + family: the translation unit is split so that the builds run in parallel
+template <class T>
+void allFor(int fam) {
+  if (fam < 0 || fam == 0) famCopy<T>();
+  if (fam < 0 || fam == 1) famMove<T>();
+  if (fam < 0 || fam == 2) famReloc<T>();
+  if (fam < 0 || fam == 3) famInPlace<T>();
+}
+#ifdef GROUP
+template <class T>
+void allForGroup() {
+#if GROUP % 4 == 0
+  famCopy<T>();
+#elif GROUP % 4 == 1
+  famMove<T>();
+#elif GROUP % 4 == 2
+  famReloc<T>();
+#else
+  famInPlace<T>();
+#endif
+}
+#endif
+
 int main(int argc, char **argv) {
   if (argc > 1) gMaxN = std::atoi(argv[1]);
   std::printf("MEMDRV cplusplus=%ld maxn=%d\n", static_cast<long>(__cplusplus), gMaxN);
-  allFor<vf::El<0> >();
-  allFor<vf::El<1> >();
-  allFor<vf::ElTM>();
-  allFor<vf::TC4>();
-  allFor<vf::POD>();
+#ifdef GROUP
+#if GROUP / 4 == 0
+  allForGroup<vf::El<0> >();
+#elif GROUP / 4 == 1
+  allForGroup<vf::El<1> >();
+#elif GROUP / 4 == 2
+  allForGroup<vf::ElTM>();
+#elif GROUP / 4 == 3
+  allForGroup<vf::TC4>();
+#else
+  allForGroup<vf::POD>();
+#endif
+#else
+  allFor<vf::El<0> >(-1);
+  allFor<vf::El<1> >(-1);
+  allFor<vf::ElTM>(-1);
+  allFor<vf::TC4>(-1);
+  allFor<vf::POD>(-1);
+#endif
   std::printf("END crashes=%d\n", gCrashes);
   return 0;
 }
